@@ -48,7 +48,7 @@ COMPONENTS = {
 }
 FAULT_KINDS = ["oserror_open", "oserror_read", "oserror_mkdir", "torn", "crash", "crash_before", "files_lost_after_crash",
                "hash_seed", "walk_permutation", "creation_order", "prepopulated_output", "relative_paths",
-               "unrelated_files_in_spec_tree", "spec_edited_between_runs"]
+               "unrelated_files_in_spec_tree", "spec_edited_between_runs", "failed_protocol_py_run_before"]
 PROBES = ["walk_order_differs_from_sorted", "fault_on_first_write", "fault_on_last_write", "retry_on_same_instance",
           "torn_init_file", "restart_after_crash", "acronym_or_digit_type_name", "import_check", "second_run_same_instance"]
 SHRINK_KEYS = []
@@ -308,6 +308,13 @@ def run_configs(ctx):
             key("prepop_other_noclean")
             if not ctx.judge("prepopulated-other-tree", rs[2], rs[3]["files"], written_only=rs[2].get("written")):
                 return False
+        # a protocol.py run of the OTHER tree that fails part-way (I/O error on a seeded write), then the real one
+        if "prepop_other" in configs:
+            ws.write_tree(plan["other_tree"])
+            k = random.Random(plan["fault_seed"] ^ 0x5A5A).randrange(1, 12)
+            ctx.child([{"op": "protocol_py", "script": script, "args": ["generate"],
+                        "fault": {"kind": random.Random(plan["fault_seed"]).choice(["torn", "oserror_open"]), "at": k}}], "0")
+            res.count("fault.failed_protocol_py_run_before")
         ws.write_tree(tree)
         rs = ctx.child([{"op": "protocol_py", "script": script, "args": ["generate"]}, {"op": "digest", "dir": gen_dir}], "0")
         res.count("fault.prepopulated_output")
